@@ -74,6 +74,8 @@ pub enum Init {
     AB,
     /// a=X plus an unreferenced blob of content Y in cas/ (a live OrphanStats lists it)
     AOrphan,
+    /// a=H (150 KiB content: above any "large blob" threshold such as 64 KiB)
+    AH,
     /// a=X whose blob file was replaced by 3 other bytes (damaged store): only "every call returns" (C15) is checked
     ADamaged,
 }
@@ -125,7 +127,7 @@ pub fn template(cfg: &Cfg, init: Init) -> (Image, BTreeMap<String, Vec<u8>>) {
     let mut m = BTreeMap::new();
     {
         let cas = real::open_cas::<K>(&dir, &cfg.config()).expect("template open");
-        let x = keys::content(keys::C_X);
+        let x = if init == Init::AH { keys::content(keys::C_H) } else { keys::content(keys::C_X) };
         if init != Init::Empty {
             real::put_chunks(&cas, "a".to_string(), &[x], true).expect("template put");
             m.insert("a".to_string(), x.to_vec());
@@ -343,7 +345,7 @@ fn monitor_step(dir: &Path, cas: &Cas<K>, step: usize, found: &mut Vec<(Vec<&'st
     }
     // The blobs these programs can create are those of the content universe; they are probed directly (a few
     // syscalls). A full walk of cas/ is done when the last call touched any other path under cas/, and at quiescence.
-    let cands: Vec<(String, [u8; 32])> = [keys::C_X, keys::C_Y, keys::C_E].iter().map(|c| b3(keys::content(*c))).map(|h| (ondisk::path_of_hash(&h), h)).collect();
+    let cands: Vec<(String, [u8; 32])> = [keys::C_X, keys::C_Y, keys::C_E, keys::C_H].iter().map(|c| b3(keys::content(*c))).map(|h| (ondisk::path_of_hash(&h), h)).collect();
     let mut present: BTreeMap<String, Vec<u8>> = BTreeMap::new();
     let touched_other = last_label.contains("cas/") && !cands.iter().any(|(p, _)| last_label.contains(p.as_str()));
     if touched_other || step == 0 {
@@ -734,7 +736,7 @@ pub fn programs(tier: &str) -> Vec<(Program, Option<usize>)> {
             v.push((Program { cfg: one, init: Init::A, threads: vec![vec![a], vec![b]], vis: 0 }, None));
         }
     }
-    use keys::{C_X, C_Y};
+    use keys::{C_H, C_X, C_Y};
     let w = |k, c| TOp::Put { k, c };
     // three actors
     let writers = [w(0, C_X), w(0, C_Y), w(1, C_X), w(1, C_Y), TOp::Remove { k: 0 }, TOp::RemoveRangeAll];
@@ -756,6 +758,10 @@ pub fn programs(tier: &str) -> Vec<(Program, Option<usize>)> {
                 v.push((Program { cfg: big, init, threads: vec![vec![*a], vec![*b], vec![*c]], vis: 0 }, Some(b3)));
             }
         }
+    }
+    // large content (150 KiB) whose only reference is removed / overwritten while another key receives the same content
+    for (a, b) in [(TOp::Remove { k: 0 }, w(1, C_H)), (w(0, C_X), w(1, C_H)), (TOp::RemoveRangeAll, w(1, C_H)), (w(0, C_H), w(1, C_H)), (TOp::Get { k: 0 }, w(0, C_X))] {
+        v.push((Program { cfg: big, init: Init::AH, threads: vec![vec![a], vec![b]], vis: 0 }, None));
     }
     // a damaged store (blob length differs from the index): readers against writers must still all return
     for (a, b) in [(TOp::Get { k: 0 }, w(0, C_Y)), (TOp::GetReader { k: 0 }, TOp::Remove { k: 0 }), (TOp::GetRange { k: 0 }, w(1, C_X)), (TOp::Get { k: 0 }, TOp::Checkpoint)] {
